@@ -58,6 +58,16 @@ StepDiff(sd, c, s, k, t, m, r) ==
          ELSE IF ~Corresponds(c, t.angle, t.pulse, tolD) THEN "angle-pulse-correspondence"
          ELSE "device-command"
 
+(* Known deviation (known/C04.json: servo-negative-angle-rounds-toward-zero).  The firmware turns the commanded angle into whole
+   degrees with `static_cast<int>(angle + 0.5f)`, which is "nearest" only for angles >= 0: for a negative angle (a servo configured
+   with min_angle < 0) the cast truncates toward zero (-44.7 -> -44, nearest is -45).  Exact match: everything else about the step
+   holds, the call is write() of a negative value, and the device command is exactly that truncation. *)
+TruncHalfUp(v) == LET w == v + 500 IN IF w >= 0 THEN w \div 1000 ELSE -((-w) \div 1000)
+KnownNegativeRound(sd, c, k, t, m, r) ==
+    /\ sd = "fw" /\ r = "ok" /\ k.act = "write"
+    /\ LET v == ClampTo(k.v, c.mina, c.maxa) IN
+       /\ v < 0 /\ Abs(t.angle - v) <= 6 /\ Corresponds(c, t.angle, t.pulse, 7) /\ InBounds(c, t.angle, t.pulse, 6)
+       /\ m.op = "write" /\ m.v = TruncHalfUp(v) /\ 2 * Abs(1000 * m.v - v) > 1000
 -----------------------------------------------------------------------------
 CONSTANTS Cals, Angles, Pulses        \* Angles/Pulses: offsets in milli-units relative to the calibration bounds
 St(a, p) == [angle |-> a, pulse |-> p]
